@@ -40,7 +40,9 @@ FLAGS = ["return_tail_probs", "return_expected", "return_expected_set", "return_
 
 # R2 and R5 know the helper structure of the pinned tree; R6 decides the same clauses on the composition (see Ctx.defer).
 # R3 also covers the toy calculator, which R6 does not walk: it keeps its own verdict.
-DEFER = [(["C08.R2", "C08.R5"], ["C08.R6"])]
+# R3's selector instances know `1.0 if self.test_stat == 'q0' else 0.0` written in place; R6 walks hypotest into the calculator and
+# generate_asimov_data per statistic and decides at which mu the Asimov data are generated, whatever helper selects it
+DEFER = [(["C08.R2", "C08.R5"], ["C08.R6"]), (["C08.R3"], ["C08.R6"], "AsymptoticCalculator.teststatistic")]
 
 
 def run(ctx):
@@ -82,9 +84,16 @@ def run(ctx):
                     return ret
                 return f
 
+            def mk_calc():
+                def f(args, kw):
+                    log.append("create")
+                    rec["create"] = (args, kw)
+                    return Obj("CALC", {"test_stat": kw.get("test_stat", "qtilde")})
+                return f
+
             ext = {
                 "_check_hypotest_prerequisites": mk("prereq", None),
-                "create_calculator": mk("create", Obj("CALC")),
+                "create_calculator": mk_calc(),  # what create_calculator hands back stores the statistic it was created with (default qtilde, C08.R4)
                 "teststatistic": mk("teststatistic", Poly.atom("TS")),
                 "distributions": mk("distributions", (Obj("SB"), Obj("B"))),
                 "pvalues": mk("pvalues", (CLsb_o, CLb_o, CLs_o)),
@@ -242,6 +251,9 @@ def run(ctx):
         dv = A.const_value(d) if d is not None else None
         if hyp_default is not None and dv == hyp_default:
             ctx.holds(r4, f"{CALC}::{cname}.__init__ default test_stat", repr(dv))
+        elif hyp_default is None and not any(A.const_value(n) == "test_stat" for n in ast.walk(hyp.node) if isinstance(n, ast.Constant)) and dv == A.const_value(A.param_defaults(repo.method(CALC, "AsymptoticCalculator", "__init__").node).get("test_stat")):
+            # hypotest does not repeat the default at all: it asks the calculator it created (decided by R1's default path); the two calculators agree
+            ctx.holds(r4, f"{CALC}::{cname}.__init__ default test_stat", f"{dv!r}; hypotest reads the statistic from the calculator")
         else:
             ctx.violated(r4, init, "test_stat default", f"hypotest assumes the default statistic {hyp_default!r} when deciding what to return, {cname} defaults to {dv!r}", expected=repr(hyp_default), found=repr(dv))
 
